@@ -506,7 +506,21 @@ func checkWorkerTeardown(c *engine.Ctx) {
 		return lf == fv
 	}
 	var closeDone, closePool, rangeProxies, drainRecv ssa.Instruction
+	// the teardown steps may live in worker itself or in methods of Control it calls directly (extracted helpers)
+	scope := []*ssa.Function{f}
 	engine.ForEachInstr(f, func(in ssa.Instruction) {
+		if call, ok := in.(*ssa.Call); ok {
+			if cf := engine.CalleeFn(call); cf != nil && cf.Blocks != nil && cf.Signature.Recv() != nil && engine.NamedOf(cf.Signature.Recv().Type()) == engine.NamedOf(f.Signature.Recv().Type()) {
+				scope = append(scope, cf)
+			}
+		}
+	})
+	forScope := func(visit func(ssa.Instruction)) {
+		for _, g := range scope {
+			engine.ForEachInstr(g, visit)
+		}
+	}
+	forScope(func(in ssa.Instruction) {
 		switch {
 		case closeOf(in, doneF):
 			closeDone = in
@@ -532,7 +546,7 @@ func checkWorkerTeardown(c *engine.Ctx) {
 	}
 	// the drained connection is closed; each ranged proxy is closed and unregistered
 	drainOK, pxyCloseOK, delOK := false, false, false
-	engine.ForEachInstr(f, func(in ssa.Instruction) {
+	forScope(func(in ssa.Instruction) {
 		call, ok := in.(ssa.CallInstruction)
 		if !ok {
 			return
